@@ -728,10 +728,8 @@ theorem st_tdBase (w : World) (i : Nat) (s : Sess) : Step w (tdBase w i s) := by
 theorem st_teardown (w : World) (i : Nat) (s : Sess) : Step w (teardown w i s).1 := by
   rw [teardown_eq]
   split
+  · exact (st_tdBase w i s).trans (st_sessDelete _ _ _)
   · exact st_tdBase w i s
-  · split
-    · exact st_tdBase w i s
-    · exact (st_tdBase w i s).trans (st_sessDelete _ _ _)
 
 theorem st_shutdown (w : World) (i : Nat) (sid : String) : Step w (w.shutdownSession i sid) := by
   cases hs : (w.node i).sess sid with
